@@ -42,6 +42,8 @@ class Net:
             kw = dict(sd.get('kw', {}))
             st = Stack(self.bus, sd['name'], dll=dll, max_cmdt_packets=sd.get('win', 1), **kw)
             st.zero_ts = bool(sc.get('zero_ts'))
+            if sc.get('rx_threads'):
+                st.start_rx_thread()     # frames are handled on a controlled receive thread (its send calls may block)
             self.stacks.append(st)
             for a in sd['cas']:
                 ca = st.add_ca(a, name_value=0x1000 + a)
@@ -177,6 +179,9 @@ class Net:
         probs = []
         if self.bus.storm:
             probs.append("frame storm: more than %d frames on the bus" % self.bus.cap)
+        for lt in self.w.threads:
+            if lt.kind == 'P' and lt.exc is not None:
+                probs.append("application thread %s died: %s" % (lt.name, lt.exc_type))
         for st in self.stacks:
             lt = st.job
             if lt.exc is not None:
@@ -184,6 +189,10 @@ class Net:
                 where = [l.strip() for l in last if l.strip().startswith('File')]
                 probs.append("job thread of %s dead: %s at %s" % (
                     st.name, lt.exc_type, _where(where[-1]) if where else '?'))
+            if st.rx_raised:
+                probs.append("receive thread of %s: the handler raised %s" % (st.name, st.rx_raised[0]))
+            if st.rx_lt is not None and st.rx_lt.exc is not None:
+                probs.append("receive thread of %s dead: %s" % (st.name, st.rx_lt.exc_type))
         return probs
 
     def idle_problems(self):
@@ -333,6 +342,14 @@ class Driver:
         return 'free'
 
     def _submit(self, i):
+        if self.sc.get('rx_threads') and self.net.w.cur is None:
+            # with controlled receive threads the application is a controlled thread too: its send call may block
+            # without stopping the world
+            self.net.w.spawn(self._submit_now, (i,), name='app%d' % i)
+        else:
+            self._submit_now(i)
+
+    def _submit_now(self, i):
         m = self.sc['msgs'][i]
         net = self.net
         if m.get('may_refuse'):
